@@ -114,7 +114,9 @@ impl SampleTables {
         let cts_offsets: Vec<i32> = samples
             .iter()
             .map(|sample| {
-                let offset = (sample.pts as i64 - sample.dts as i64) as i32;
+                // write_video_sample_with_dts guarantees the difference fits an i32; the
+                // timestamps themselves may exceed i64::MAX, so subtract as u64 (wrapping)
+                let offset = sample.pts.wrapping_sub(sample.dts) as i32;
                 if offset != 0 {
                     has_bframes = true;
                 }
